@@ -226,17 +226,39 @@ func (e *Engine) Verify(c *Contract) []*Result {
 	}
 	var out []*Result
 	for _, combo := range combos {
-		out = append(out, e.verifyCase(c, combo))
+		if !c.SplitRet {
+			out = append(out, e.verifyCase(c, combo, -1))
+			continue
+		}
+		// one run per return point of the target (post-state not merged across returns)
+		first := e.verifyCase(c, combo, 0)
+		out = append(out, first)
+		for j := 1; j < first.Exec.numReturns; j++ {
+			r := e.verifyCase(c, combo, j)
+			// obligations raised inside the body were already produced by run 0
+			var keep []*Obligation
+			for i, o := range r.Obls {
+				if i >= r.Exec.oblAtReturn {
+					keep = append(keep, o)
+				}
+			}
+			r.Obls = keep
+			out = append(out, r)
+		}
 	}
 	return out
 }
 
-func (e *Engine) verifyCase(c *Contract, combo []caseChoice) (res *Result) {
+func (e *Engine) verifyCase(c *Contract, combo []caseChoice, selRet int) (res *Result) {
 	x := NewExec(e)
+	x.selectReturn = selRet
 	res = &Result{Contract: c, Exec: x}
 	var tags []string
 	for _, ch := range combo {
 		tags = append(tags, ch.param+"="+ch.alt)
+	}
+	if selRet >= 0 {
+		tags = append(tags, fmt.Sprintf("ret=%d", selRet))
 	}
 	if len(tags) > 0 {
 		res.Case = "[" + strings.Join(tags, ",") + "]"
